@@ -164,7 +164,7 @@ def call_builtin(ip, fn, args, kwargs, lineno):
     if fn is ord:
         return args[0] if is_sym(args[0]) else ord(args[0])      # a symbolic character is represented by its code
     if fn is chr:
-        return chr(args[0])
+        return chr(args[0]) if not is_sym(args[0]) else Opaque("chr")
     if fn is abs:
         x = args[0]
         return abs(x) if not is_sym(x) else Ite(I(x) >= 0, x, -I(x))
